@@ -133,6 +133,11 @@ def LogOrigin (c : Cfg) : Ev → Prop
   | .hret hid => c.code.head? = some (.hret hid)
   | _ => True
 
+/-! ### waiting -/
+
+/-- the part of a history (newest first) that is newer than the newest occurrence of event `e` -/
+def since (e : Tr) (tr : List Tr) : List Tr := tr.takeWhile (· ≠ e)
+
 /-! ### the history of one signal -/
 
 /-- the handler invocations `(callback, data)` made for signal `s`, oldest first -/
